@@ -91,8 +91,113 @@ def check(ctx, cases):
     return fails
 
 
+# --- whole descriptions: spec/Preprocess.tla ----------------------------------------------
+PP_CONSTS = {"MaxOcc": 1, "TrailSet": "few", "Fault": "none", "EmitCases": False}
+PP_INVS = ["AllCanonical", "NoResidue", "OthersKept", "ResultIsExpected", "FixedPoint", "StepsAreFunction",
+           "DefaultsOnlyFillGaps"]
+PP_NSW = {"N": "North", "S": "South", "E": "East", "W": "West", "-": ""}
+
+
+def pp_render_tr(f):
+    """One fixed spelling per (template class, numbers, directions): equal atoms are equal text."""
+    ns = f["ns"] if f["ns"] != "-" else ""
+    ew = f["ew"] if f["ew"] != "-" else ""
+    tm = f["tm"]
+    if tm == "T-R":
+        out = "T%d%s-R%d%s" % (f["t"], ns, f["r"], ew)
+    elif tm == "T.,R.":
+        out = ("T. %d %s., R. %d %s" if ns and ew else "T. %d%s, R. %d%s") % (f["t"], ns, f["r"], ew)
+    elif tm == "Township,Range":
+        out = "Township %d %s, Range %d %s" % (f["t"], PP_NSW[f["ns"]], f["r"], PP_NSW[f["ew"]])
+    else:
+        out = "%d%s-%d%s" % (f["t"], ns, f["r"], ew)
+    return " ".join(out.split()).replace(" ,", ",")
+
+
+def pp_fill(i):
+    return "Sec %d: NE/4 and that part lying north of the river" % (10 + i)
+
+
+def pp_render_atom(a):
+    k = a["k"]
+    return {"sp": " ", "nl": "\n", "pm": "of the 5th P.M."}.get(k) or (a["x"] if k == "p" else "?")
+
+
+def pp_case(cid, c):
+    parts, fills = [], {}
+    n = len(c["occ"])
+    for i, o in enumerate(c["occ"], 1):
+        parts.append(pp_render_tr(o["form"]))
+        parts += [pp_render_atom(a) for a in o["trail"]]
+        if o["pm"]:
+            parts.append(" of the 5th P.M.,")
+        fills[str(i)] = pp_fill(i)
+        parts.append(" " + fills[str(i)])
+        if i < n:
+            parts.append("; ")
+    return {"id": cid, "kind": "c08doc", "abs": {"occ": c["occ"], "dflt": c["dflt"]},
+            "args": {"text": "".join(parts), "dflt": c["dflt"], "fills": fills}}
+
+
+def check_docs(ctx, cases):
+    obs = ctx.impl_map("c08_doc", cases, chunksize=50)
+    recs, by_id = [], {}
+    for c in cases:
+        o = obs.get(c["id"])
+        if o is None:
+            continue
+        by_id[c["id"]] = c
+        recs.append({"id": c["id"], "occ": c["abs"]["occ"], "dflt": c["abs"]["dflt"], "obs": o.get("obs") or [],
+                     "found": o.get("found") or [], "tracts": o.get("tracts") or [], "leftover": bool(o.get("leftover")),
+                     "again": bool(o.get("again")), "exc": o.get("exc", "none")})
+        ctx.nontrivial.add((c["args"]["text"], c["abs"]["dflt"]["ns"], c["abs"]["dflt"]["ew"]))
+    fails, drifts = ctx.validate("PreprocessTrace", recs, PP_CONSTS, invariants=("Verdict", "Drift"))
+    for cid, clause, *_ in fails:
+        o = obs[cid]
+        ctx.violation(by_id[cid], clause, {"observed": {k: o.get(k) for k in ("pp_text", "found", "tracts", "leftover", "exc", "exc_msg")}})
+    if drifts:
+        cid = drifts[0]
+        ctx.add_drift(len(drifts), {"text": by_id[cid]["args"]["text"], "preprocessed": obs[cid].get("pp_text"),
+                                    "model": "Preprocessed(Doc(occ), dflt) of spec/Preprocess.tla"})
+    for c in cases[:2]:
+        ctx.sample({"text": c["args"]["text"], "defaults": c["args"]["dflt"], "preprocessed": obs.get(c["id"], {}).get("pp_text")})
+    return fails
+
+
+def run_docs(ctx, thorough):
+    """The six scrubbing passes over descriptions with several Twp/Rges (spec/Preprocess.tla)."""
+    big = {"MaxOcc": 2, "TrailSet": "few", "Fault": "none", "EmitCases": False}
+    ctx.tlc("Preprocess", big, invariants=PP_INVS)
+    ctx.tlc("Preprocess", dict(big, MaxOcc=1, TrailSet="all"), invariants=PP_INVS, coverage=True)
+    ctx.require_actions(["AddOcc", "Start", "RunTwpRge", "RunNoNSWE", "RunNoNSR", "RunNoEWT", "RunPM", "RunCommaRemove", "Reduce"])
+    # the behaviour of the pinned tree (known finding F14) breaks both claims in the model
+    ctx.tlc("Preprocess", dict(big, Fault="replace_all"), invariants=["AllCanonical"], expect_violation="replace_all", count=False)
+    if thorough:
+        ctx.tlc("Preprocess", dict(big, Fault="replace_all"), invariants=["NoResidue"], expect_violation="replace_all", count=False)
+    cases = []
+    res = ctx.tlc("Preprocess", dict(big, MaxOcc=1, TrailSet="all", EmitCases=True), invariants=["EmitCase"], workers=1,
+                  count=False)
+    for i, c in enumerate(res.cases):
+        cases.append(pp_case("d1_%d" % i, c))
+    n_sim = 60000 if thorough else 7000
+    res = ctx.tlc("Preprocess", dict(big, MaxOcc=3, TrailSet="all", EmitCases=True), invariants=["EmitCase"] + PP_INVS,
+                  workers=1, count=False, simulate="num=%d" % n_sim, depth=12)
+    seen = set()
+    for i, c in enumerate(res.cases):
+        key = repr((c["occ"], c["dflt"]))
+        if key in seen:
+            continue
+        seen.add(key)
+        cases.append(pp_case("ds_%d" % i, c))
+    if len(cases) < 1000:
+        raise core.MachineryFailure("Preprocess emitted only %d cases" % len(cases))
+    check_docs(ctx, cases)
+    return len(cases)
+
+
 def run(ctx):
     thorough = ctx.tier == "thorough"
+    ndocs = run_docs(ctx, thorough)
     invs = ["ExplicitKept", "MissingFromDefault", "SameAsWrittenOut"]
     ctx.tlc("TwpRgeLex", {"MaxTR": 1, "Fault": "none", "EmitCases": False}, invariants=invs, coverage=True)
     ctx.require_actions(["Choose"])
@@ -138,7 +243,9 @@ def run(ctx):
                 "x defaults x source per axis (config / parse keyword / MasterConfig / unset, independently for N/S and E/W) x ocr_scrub of spec/TwpRgeLex.tla (%d%%), "
                 "each rendered with a random concrete spelling, plus pairs of Twp/Rges in one description (40%% denoting the same "
                 "Twp/Rge, one of them with a missing direction); non-trivial = distinct (text, source, defaults, ocr)"
-                % int(keep * 100))
+                % int(keep * 100)
+                + "; whole descriptions of spec/Preprocess.tla (1-3 Twp/Rge occurrences x trailing punctuation x Principal "
+                  "Meridian wording x defaults): all with one occurrence, %d behaviours of TLC's simulation mode for up to three" % ndocs)
     ctx.assumptions += ["spelling templates of harness/drivers/c08.py (DESIGN Appendix A); a missing direction is only written "
                         "with the T and R words present; range 2 only with the R word (documented exception)",
                         "OCR look-alikes are substituted into non-final digits only"]
@@ -146,7 +253,7 @@ def run(ctx):
 
 def replay(ctx, payload):
     case = payload["case"]
-    fails = check(ctx, [case])
+    fails = check_docs(ctx, [case]) if case.get("kind") == "c08doc" else check(ctx, [case])
     if fails:
         print("VIOLATION property=C08 replay=(replayed) clause=%s" % fails[0][1])
         return 1
